@@ -77,7 +77,12 @@ def gen_rt(rng, tier):
             m = rng.choice([1001, 1200, 1500])
             names = [f"c{j}" for j in range(m)]
             table = [[bits(rand_double(rng)) for _ in range(m)] for _ in range(ns)]
-        yield {"samples": [f"s{i}" for i in range(ns)], "names": names, "bits": table, "gz": rng.random() < 0.2, "cov": rng.random() < 0.3, "subset": rng.choice([None, None, "some"]), "seed": rng.randrange(2**31)}
+        samples = [f"s{i}" for i in range(ns)]
+        if t % 10 == 5:
+            # a fixed share: names and sample IDs that begin or end with a blank, next to the same text without it
+            names = [rng.choice([" bmi", "bmi", "bmi ", " a", "a"]) for _ in range(len(names))]
+            samples = [(" " if i % 2 else "") + f"s{i // 2}" + (" " if i % 3 == 2 else "") for i in range(ns)]
+        yield {"samples": samples, "names": names, "bits": table, "gz": rng.random() < 0.2, "cov": rng.random() < 0.3, "subset": rng.choice([None, None, "some"]), "seed": rng.randrange(2**31)}
 
 
 def impl_rt(case):
@@ -166,6 +171,10 @@ def gen_parse(rng, tier):
         for i in range(rng.randint(1, 5)):
             good = rng.random() < 0.6
             row = [f"s{i}"] + [rng.choice(toks[:3] + toks[9:13]) if good else rng.choice(toks) for _ in range(m)]
+            if t % 4 == 1 and rng.random() < 0.4:
+                # a cell beyond the last column of the header that is no number (a remark, NA, the empty cell a trailing tab leaves):
+                # a row with a non-numeric entry like any other
+                row.append(rng.choice(["NA", "", "abc", "see notes"]))
             lines.append(row)
         yield {"lines": lines}
 
@@ -237,6 +246,11 @@ def gen_ops(rng, tier):
         if rng.random() < 0.05:
             ns, m = rng.randint(17, 40), rng.randint(1, 12)  # medium sizes
         data = [[rng.choice([-9.0, 0.0, 1.0, 2.5, -3.0, 7.0, 1e-9 * rng.randint(1, 9), 1e-12 * rng.randint(1, 9), 170.0 + rng.randint(0, 9)]) for _ in range(m)] for _ in range(ns)]
+        if rng.random() < 0.3:
+            # neighbours of the missing code: only -9 itself is the code
+            for r in data:
+                if rng.random() < 0.5:
+                    r[rng.randrange(m)] = rng.choice([-9.5, -9.000001, -9.999, -8.999999, -9.000000000000002, -8.999999999999998, -90.0, 9.0, -9e-300])
         if rng.random() < 0.3:
             j = rng.randrange(m)
             for r in data:
